@@ -92,16 +92,17 @@ class IntrospectablePass(object):
         target = self._transformer.lookup_typenode(node.type)
         target = self._transformer.resolve_aliases(target)
 
+        # Variable arguments cannot be described in a typelib, skipped or not
+        if isinstance(node.type, ast.Varargs):
+            parent.introspectable = False
+            return
+
         if node.skip:
             return
 
         if not node.type.resolved:
             self._parameter_warning(parent, node,
                                     "Unresolved type: '%s'" % (node.type.unresolved_string, ))
-            parent.introspectable = False
-            return
-
-        if isinstance(node.type, ast.Varargs):
             parent.introspectable = False
             return
 
